@@ -6,7 +6,9 @@ ROOT = os.path.dirname(os.path.dirname(os.path.abspath(__file__)))
 CORE_NOTE = ("Trusted: TLC and the TLA+ specification spec/LruMem.tla (its declarative properties are model-checked "
              "against its constructive operators); the Rust harness projection (public API + read-only hook); "
              "bounded model = 3 key ids with sizes/limits on every exact-fit boundary, extended by random traces "
-             "(up to hundreds of entries, tombstone-heavy tables, 6 hashers, 2 key forms) validated step by step.")
+             "(up to hundreds of entries, tombstone-heavy tables, 7 hashers incl. one whose clone hashes differently, 2 key forms) "
+             "validated step by step; the tours are replayed a second time with three other type shapes of the key / value "
+             "types (key without drop glue, value without drop glue, an Entry layout with padding).")
 
 CLAIMS = {
  "C01": ("model_checking", "5/C01", "Also evaluated in every call after a caught panic / refused allocation (crash sweeps over the bounded, the two-cache and the 70-224-entry segments, crash traces), on the real entry_size of what is held, and in large-scale runs (thousands of entries). TLC invariant C01_Bound on every state of the bounded model; every model transition replayed on the real cache under hasher x key-form configurations with current_size<=max_size compared after each step; random histories validated event by event by TLC trace validation (C01_Bound evaluated on every logged state)."),
@@ -14,20 +16,20 @@ CLAIMS = {
  "C03": ("model_checking", "5/C03", "Declarative shortest-LRU-prefix property C03_Step model-checked against the constructive eviction operator on all transitions, and evaluated on every recorded step of the real cache; replay compares the exact surviving order after every evicting edge."),
  "C04": ("model_checking", "5/C04", "Sequential-map semantics (C04_Step, NoDup) model-checked; replay compares every return value and looks up every key of the universe through owned and borrowed forms after each step, under constant/1-bit/identity/SipHash/default hashers."),
  "C05": ("model_checking", "5/C05", "Declarative promote/keep-order property C05_Step model-checked; replay compares forward order, reverse order, peek_lru/peek_mru and Debug order after every step; trace validation on long histories with reallocation anywhere."),
- "C06": ("model_checking", "5/C06", "Object conservation C06_Step (before+args = after + dropped + handed + leaked, pairwise disjoint) model-checked; replay/trace compare the identity (unique tokens) of every dropped, returned and stored object per step; registry reports double drops and end-of-life leaks."),
+ "C06": ("model_checking", "5/C06", "Owning iterators are also driven through nth / nth_back (entries passed over must be dropped exactly once), and with key / value types lacking drop glue (type shapes). Object conservation C06_Step (before+args = after + dropped + handed + leaked, pairwise disjoint) model-checked; replay/trace compare the identity (unique tokens) of every dropped, returned and stored object per step; registry reports double drops and end-of-life leaks."),
  "C07": ("model_checking", "5/C07", "Plus: pointer-level model LruList (MemSafe, WellFormed, Refines, IterRefines; two pinned variants must be rejected), the tour replayed by an AddressSanitizer build, and large-scale runs on caches of thousands of entries. WellFormed/SlotStable structural predicates evaluated by TLC on the hook output of every recorded step (links symmetric, nodes = occupied buckets, iterated entry = looked-up entry = list node, mirror traversals); replay compares the same facets after every model transition."),
  "C08": ("exploration", "5/C08", "spec/MemSize.tla transcribes the size algebra; TLC enumerates every type term of depth <= 2 (660 terms over 33 constructors, trait bounds respected), the systematic depth-3 bulk layer O(W(leaf)) (580 terms: every container or forwarding wrapper over every wrapper of a heap-owning and a heap-free leaf - where a specialised bulk helper is reached), a seeded depth-3 sample, fixed tuple/array terms and locks held by another thread while measured; generated Rust probes log the abstract structure of generated values; TLC checks mem = value + heap, heap = HS(structure) compositionally, the four bulk helpers over 7 iterator shapes = element-wise sums, and 10^6-element runs on a 2 MiB stack terminate."),
  "C09": ("exploration", "5/C09", "Same generated probes with random builder histories (with_capacity/push/extend/reserve/truncate/shrink at every nesting level); a counting global allocator measures the bytes each value holds; TLC checks the spec's allocation model Held(v) against the allocator, heap_size = allocator bytes for the exact types and the two-sided bound for HashMap/HashSet."),
- "C10": ("model_checking", "5/C10", "Classification/atomicity property C10_Step model-checked on all (state, key, size) combinations incl. simultaneous failure conditions; replay compares variant, numeric fields, identity of the returned pair and the untouched state; trace validation on random states."),
+ "C10": ("model_checking", "5/C10", "Also replayed with a key / value layout under which size_of::<Entry<K, V>>() exceeds the sizes of its parts (padding), so that the thresholds are checked against entry_size and not against a sum of parts. Classification/atomicity property C10_Step model-checked on all (state, key, size) combinations incl. simultaneous failure conditions; replay compares variant, numeric fields, identity of the returned pair and the untouched state; trace validation on random states."),
  "C11": ("model_checking", "5/C11", "C11_Step model-checked for shrink/equal/grow-fits/grow-evicts/overflow at every position; replay compares result forwarding, closure-ran flag, error fields, identity and post-state."),
  "C13": ("model_checking", "5/C13", "Plus: allocation refused at exactly the n-th allocation of every try_reserve (sweep), FIFO-churn traces that reach tombstone-driven rebuilds, MC_Tomb (probe group width 2) for tombstone arithmetic at design level. C13_Step/C13_Virgin/C13_GrowthBound model-checked with hashbrown's capacity arithmetic transcribed; replay compares capacity and bucket count exactly after every edge incl. overflow and injected allocator refusal; traces reach tombstone-heavy tables."),
  "C12": ("model_checking", "5/C12", "Iterator sub-machine (IterYields/IterRest + declarative C12_Step: front prefix, back prefix of the reverse, each entry once, None only after exhaustion and then forever) model-checked for all words over {next, next_back, nth(1), nth(2), nth_back(1), nth_back(2)} up to length len+1 (3 key ids quick, 4 thorough) and all 7 kinds (nth passes over entries: an owning iterator or drain must drop them; skip / step_by / rev of std are built from these calls); every such run replayed on the real iterators comparing yields by object identity, post-state, drops of unconsumed entries."),
- "C14": ("model_checking", "5/C14", "clone_from is modelled as well; traces with values whose clones differ in size check that recorded sizes are copied. Two-cache model: clone in every state then every operation on either cache with the frame condition (other cache unchanged) as an action property; replay compares the clone's entries, order, recorded sizes, sizes, capacity and the identity of its objects (fresh clones of the source's), and the structural fingerprint of the other cache after every call."),
+ "C14": ("model_checking", "5/C14", "clone_from is modelled as well; every clone is probed (all keys, both key forms) right after it is made, also under a hash builder whose clone hashes differently; traces with values whose clones differ in size check that recorded sizes are copied. Two-cache model: clone in every state then every operation on either cache with the frame condition (other cache unchanged) as an action property; replay compares the clone's entries, order, recorded sizes, sizes, capacity and the identity of its objects (fresh clones of the source's), and the structural fingerprint of the other cache after every call."),
  "C16": ("model_checking", "5/C16", "Includes sweeps on caches of 70-224 entries with panics at the callbacks around powers of two and the entry count, continued use of an entry whose mutate closure panicked, and LruList with a Panic action at every user-code point. Crash points as events: for sampled edges of the bounded model a panic is injected at the n-th hash / eq / size / clone / closure callback for every n until the operation completes, followed by continued use and drop; TLC validates each crash event against the declarative CrashBad consistency predicate (structure well-formed, sizes sum, no double drop, no invented/lost entries for closure panics) and every later step against the ordinary specification."),
  "C17": ("model_checking", "5/C17", "Every (state, iterator kind, word, forget) edge of the iterator model is executed on the real cache as its own segment followed by continued use and drop; TLC validates the declarative ForgetBad predicate (valid cache, nothing yielded still inside, conservation of objects, no registry anomaly) and all later steps."),
  "C15": ("model_checking", "5/C15", "C15_Step for every subset of present keys in every model state; replay compares predicate call sequence (with object identity), survivors, drops and sizes."),
  "C18": ("other", "5/C18", "The compiler is the decision procedure. spec/Borrow.tla supplies the model of what must be accepted and rejected (loan discipline: shared loans admit only shared calls, exclusive loans admit nothing; auto traits: conjunction over K, V, S) and TLC enumerates all 498 acquire/call/use programs and 128 witness obligations plus generic ones; generated Rust functions are compiled with cargo check and every verdict (incl. the error code class) is compared with the prediction. The API table is cross-checked against the pub fn signatures so that a new lending API cannot go unprobed."),
- "C19": ("model_checking", "5/C19", "Plus a read-only guard: every shared-reference operation of the tour is re-executed with the table allocation and the seal mapped PROT_READ (a write, even one that is undone, is a SIGSEGV), including clone / clone_from on the two-cache tour with a faithful key type and with one whose Clone does not preserve equality (the clone's allocations come from a private arena); clone is also checked when it unwinds. C19_Step (read operations are stuttering steps) model-checked; replay/trace additionally require the structural fingerprint (node addresses, links, recorded sizes, seal, table) to be identical before and after every shared-reference call."),
+ "C19": ("model_checking", "5/C19", "hasher() is an operation of the model (returns the builder the cache was given). Plus a read-only guard: every shared-reference operation of the tour is re-executed with the table allocation and the seal mapped PROT_READ (a write, even one that is undone, is a SIGSEGV), including clone / clone_from on the two-cache tour with a faithful key type and with one whose Clone does not preserve equality (the clone's allocations come from a private arena); clone is also checked when it unwinds. C19_Step (read operations are stuttering steps) model-checked; replay/trace additionally require the structural fingerprint (node addresses, links, recorded sizes, seal, table) to be identical before and after every shared-reference call."),
  "C20": ("model_checking", "5/C20", "Hash-count upper bound HashBound model-checked against the constructive bound; replay/trace compare the measured number of Hash::hash calls of every operation with the bound (upper bound only)."),
 }
 
